@@ -29,7 +29,13 @@ FloatTable == << <<<<48>>, <<0, 0, 0, 0>>, <<0, 0, 0, 0, 0, 0, 0, 0>>>>,        
                  <<<<49, 46, 53>>, <<63, 192, 0, 0>>, <<63, 248, 0, 0, 0, 0, 0, 0>>>>,                 \* "1.5"
                  <<<<45, 50>>, <<192, 0, 0, 0>>, <<192, 0, 0, 0, 0, 0, 0, 0>>>>,                       \* "-2"
                  <<<<48, 46, 50, 53>>, <<62, 128, 0, 0>>, <<63, 208, 0, 0, 0, 0, 0, 0>>>>,             \* "0.25"
-                 <<<<49, 48, 50, 52>>, <<68, 128, 0, 0>>, <<64, 144, 0, 0, 0, 0, 0, 0>>>> >>           \* "1024"
+                 <<<<49, 48, 50, 52>>, <<68, 128, 0, 0>>, <<64, 144, 0, 0, 0, 0, 0, 0>>>>,             \* "1024"
+                 \* decimal texts next to the midpoint of two adjacent singles (exact rational arithmetic decides the single;
+                 \* going through the nearest double first would round the other way)
+                 <<<<49, 46, 48, 48, 48, 48, 48, 48, 48, 53, 57, 54, 48, 52, 54, 52, 52, 55, 56>>, <<63, 128, 0, 1>>, <<63, 240, 0, 0, 16, 0, 0, 0>>>>,     \* "1.00000005960464478"
+                 <<<<49, 46, 48, 48, 48, 48, 48, 48, 49, 55, 56, 56, 49, 51, 57, 51, 52, 51, 50>>, <<63, 128, 0, 1>>, <<63, 240, 0, 0, 48, 0, 0, 0>>>>,     \* "1.00000017881393432"
+                 <<<<49, 54, 55, 55, 55, 50, 49, 55, 46, 48, 48, 48, 48, 48, 48, 48, 48, 49>>, <<75, 128, 0, 1>>, <<65, 112, 0, 0, 16, 0, 0, 0>>>>,     \* "16777217.000000001"
+                 <<<<48, 46, 49>>, <<61, 204, 204, 205>>, <<63, 185, 153, 153, 153, 153, 153, 154>>>> >>   \* "0.1"
 FloatChars == {43, 45, 46} \cup 48..57 \cup {101, 69, 120, 88, 112, 80, 105, 110, 102, 97, 73, 78, 70, 65, 116, 121, 84, 89}
 FloatLookup(txt, dbl) == LET S == {i \in DOMAIN FloatTable : FloatTable[i][1] = txt} IN
                          IF S = {} THEN <<>> ELSE FloatTable[CHOOSE i \in S : TRUE][IF dbl THEN 3 ELSE 2]
